@@ -298,12 +298,10 @@ func checkC02(c *core.Ctx) {
 			p.Inst = []model.Instance{{Chord: chord(r), Values: one()}, {Chord: chord(r), Values: v}, {Values: v}, {Chord: chord(r), Values: one(), BPM: 90}}
 		}
 		tracks := 1 + r.Intn(3)
-		for _, l := range model.Lengths(960, v) {
-			if l == 0 {
-				// a chord of no length and the next chord strike at the same tick: only the order of the events
-				// of a single track tells them apart
-				tracks = 1
-			}
+		if shortValues(v) {
+			// a chord of no length (whatever the resolution of the file) and the next chord strike at the same tick:
+			// only the order of the events of a single track tells them apart
+			tracks = 1
 		}
 		judgeTiming(c, "wordsizes", i, p, model.Flags{Track: tracks}, writeOpts{}, "")
 		c.Seen("denominator_bits", fmt.Sprint(bits))
@@ -350,6 +348,16 @@ func checkC02(c *core.Ctx) {
 		c.Extra("nearhalf_example_exact_ticks", x.FloatString(20))
 		c.Count("nearhalf_cases", 1)
 	})
+}
+
+// shortValues tells whether the values sum up to less than an eighth of a beat: at a coarse resolution such an
+// instance may have no ticks at all.
+func shortValues(v []model.Frac) bool {
+	sum := new(big.Rat)
+	for _, f := range v {
+		sum.Add(sum, new(big.Rat).SetFrac(new(big.Int).SetUint64(f.Num), new(big.Int).SetUint64(f.Den)))
+	}
+	return sum.Cmp(big.NewRat(1, 8)) < 0
 }
 
 // wordSizeValues draws the durations of one instance from the family described at the `wordsizes` stream of C02.
